@@ -1295,7 +1295,8 @@ class GList:
 # hooks used by rewritten code
 # ======================================================================
 
-ORDER = {'mode': 'fixed', 'max': 3, 'n': 0, 'epoch': 0}    # epoch: bump to model 'another process / hash seed'
+ORDER = {'mode': 'fixed', 'max': 3, 'n': 0, 'epoch': 0, 'filter': None}    # epoch: bump to model 'another process / hash seed'
+# filter: optional predicate on the list of candidate elements; only iterations it accepts get a symbolic order
 
 
 def _perm_iter(items, owner=None):
@@ -1306,6 +1307,14 @@ def _perm_iter(items, owner=None):
     k = len(items)
     if ORDER['mode'] != 'symbolic' or k < 2 or k > ORDER['max']:
         return items
+    if ORDER['filter'] is not None and not ORDER['filter']([e for _, e in items]):
+        return items
+    if ORDER.get('concrete_perm') is not None:
+        # cube splitting over the schedule: this run follows one concrete permutation (the harness runs one job per permutation)
+        perms = list(_it.permutations(range(k)))
+        p = perms[ORDER['concrete_perm'] % len(perms)]
+        ORDER.setdefault('log', []).append([str(items[j][1]) for j in p])
+        return [items[j] for j in p]
     cached = getattr(owner, '_ord', None) if owner is not None else None
     key = (ORDER['epoch'], getattr(owner, '_ver', 0), tuple(e for _, e in items)) if owner is not None else None
     if cached is not None and cached[0] == key:
@@ -2295,7 +2304,8 @@ def _id(x):
 
 @override(_b.str)
 def _str(x=''):
-    if is_sym(x):
+    if is_sym(x) or (getattr(type(x), '__lifted_class__', False) and deep_sym(x)):
+        # a library object with symbolic fields is instantiated deeply first (a __str__ returning a union is a TypeError)
         return E.lift(str, [x])
     return str(x)
 
